@@ -664,6 +664,9 @@ class System:
             return m.currentspace
 
     def close_model(self, model):
+        if self.models.get(model.name) is not model:
+            # Already closed: another model may bear its name now
+            return
         model.refmgr.del_all_spec()
         del self.models[model.name]
         if self.currentmodel is model:
